@@ -583,7 +583,13 @@ impl Array {
                     *slice = &array.values[index * group_length..(index + 1) * group_length];
                 }
 
-                let output_offset = flatten_indices(&indices, &output_dimensions);
+                // the output shares the leading dimensions, so each of its slices follows the previous one
+                let output_offset = output_group_length
+                    * indices
+                        .iter()
+                        .zip(input_dimensions)
+                        .take(leading_count)
+                        .fold(0, |acc, (x, d)| acc * d + x);
                 let output_slice =
                     &mut output_values[output_offset..output_offset + output_group_length];
 
